@@ -1,6 +1,5 @@
 PROP = dict(
     id="C38",
-    disabled=True,
     engines=["c38"],
     go_tags=["c38"],
     gen_files={"MM/Gen/C38.lean": "c38"},
